@@ -99,6 +99,53 @@ def run_tgs(run, quick=True):
         shutil.rmtree(wd, ignore_errors=True)
 
 
+def run_kpasswd(run, quick=True):
+    """KPasswd.tla (RFC 3244 exchange, client side): model checked with its weakening, then bound end to end: the real
+    Client.ChangePasswd against a simulated password-change service and an attacker answering in its place (vh kpasswd)."""
+    wd = vlib.spec_scratch(["kpasswd"])
+    try:
+        info = {"models": {}}
+        for cfg, expect in (("MCKPasswd.cfg", False), ("MCKPasswd_errorform.cfg", True)):
+            res = vlib.tlc(wd, "KPasswd", cfg=cfg, timeout=1200)
+            info["models"][cfg] = {"distinct": res.distinct, "violation": bool(res.violation)}
+            if bool(res.violation) != expect or (not expect and (res.rc != 0 or not res.finished)):
+                raise vlib.Inconclusive("KPasswd %s: expected violation=%s, got %s\n%s" % (cfg, expect, res.violation, res.out[-2000:]))
+            if not expect:
+                run.add_model(res)
+        trace = os.path.join(wd, "trace.ndjson")
+        vlib.run_harness(["kpasswd", "-seed", str(run.seed), "-rounds", "6" if quick else "60", "-out", trace], timeout=2400)
+        lines = vlib.read_ndjson(trace)
+        res = vlib.tlc(wd, "TraceKPasswd", workers=1, timeout=1200)
+        cl = [x for x in lines if x["ev"] == "client"]
+        info["events"] = len(lines)
+        info["exchanges"] = len(cl)
+        info["success"] = sum(1 for x in cl if x["ok"])
+        info["by_reply"] = {m: sum(1 for x in cl if x["reply"] == m) for m in sorted({x["reply"] for x in cl})}
+        if res.violation:
+            return info, lines, "an invariant of KPasswd (SuccessIsAuthentic / ClientPasswordWasApplied / DatabaseFollowsRequests) is violated by the recorded run:\n" + res.out[-1500:]
+        if res.rc != 0 or not res.finished:
+            raise vlib.Inconclusive("TraceKPasswd failed:\n" + res.out[-3000:])
+        rej = res.tags("REJECTED")
+        if rej:
+            pos = int(rej[0])
+            return info, lines, "event %d is not a step of KPasswd: %s" % (pos, lines[pos - 1])
+        if info["success"] == 0 or len(info["by_reply"]) < 9:
+            raise vlib.Inconclusive("kpasswd trace vacuous: %s" % info)
+        # ---- binding self-test: an attacker's reply reported as success is not a behaviour
+        k = next((i for i, x in enumerate(lines) if x["ev"] == "client" and x["reply"] == "reflected"), None)
+        bad = [dict(x) for x in lines]
+        bad[k]["ok"] = True
+        bad[k]["pwAfter"] = bad[k]["new"]
+        vlib.write_ndjson(trace, bad)
+        res2 = vlib.tlc(wd, "TraceKPasswd", workers=1, timeout=1200)
+        info["binding_selftest"] = {"corrupted_event": k + 1, "rejected": bool(res2.violation) or bool(res2.tags("REJECTED"))}
+        if not info["binding_selftest"]["rejected"]:
+            raise vlib.Inconclusive("binding self-test: TraceKPasswd accepts a reflected reply reported as success")
+        return info, lines, None
+    finally:
+        shutil.rmtree(wd, ignore_errors=True)
+
+
 def main(tier):
     run = vlib.Run("SYS", "model_checking", tier)
     vlib.build_harness()
